@@ -59,6 +59,7 @@ fn run<P: Property>(p: P, args: &[String], quick_cases: usize, thorough_cases: u
         cases,
         replay_dir: PathBuf::from(arg(args, "--replay-dir").unwrap_or("/verif/replays".into())),
         threads: arg(args, "--threads").and_then(|s| s.parse().ok()).unwrap_or(12),
+        budget_secs: std::env::var("VERIF_BUDGET_SECS").ok().and_then(|s| s.parse().ok()).unwrap_or(if thorough { 3000 } else { 300 }),
     };
     let out = arg(args, "--out").map(PathBuf::from);
     start_watchdog(p.id(), cfg.replay_dir.clone(), std::time::Duration::from_secs(std::env::var("VERIF_HANG_SECS").ok().and_then(|s| s.parse().ok()).unwrap_or(120)));
